@@ -67,8 +67,16 @@ theorem sliceCmds_cons {m : Meta} {ms : List Meta} {remLen start count : Nat} {o
       start1 + m.len ≤ remLen ∧ count < COMMAND_RESPONSE_MAX ∧
       sliceCmds ms remLen (start1 + m.len) (count + 1) = .ok out' ∧
       out = { id := m.id, priority := m.priority, parent := m.parent, policy := policy,
-              data := (start1, start1 + m.len) } :: out' := by
+              data := (start1, start1 + m.len) } :: out' ∧
+      parentHasSuccessor m.parent = true := by
   rw [sliceCmds] at h
+  split at h
+  · cases h
+  rename_i hpar
+  have hpar' : parentHasSuccessor m.parent = true := by
+    cases hb : parentHasSuccessor m.parent
+    · exact absurd hb hpar
+    · rfl
   split at h
   · cases h
   · rename_i policy start1 hpol
@@ -84,7 +92,7 @@ theorem sliceCmds_cons {m : Meta} {ms : List Meta} {remLen start count : Nat} {o
         · cases h
         · rename_i out' heq
           simp only [Except.ok.injEq] at h
-          exact ⟨policy, start1, out', hpol, hle, by omega, heq, h.symm⟩
+          exact ⟨policy, start1, out', hpol, hle, by omega, heq, h.symm, hpar'⟩
 
 /-- **the slices are in bounds**: the ranges form a chain of adjacent intervals starting at
 `start` and ending at or before `remLen` -/
@@ -101,7 +109,7 @@ theorem sliceCmds_chained :
     simpa [ranges, Chained] using hs
   | cons m ms ih =>
     intro remLen start count out h hs
-    obtain ⟨policy, start1, out', hpol, hle, _, hrec, hout⟩ := sliceCmds_cons h
+    obtain ⟨policy, start1, out', hpol, hle, _, hrec, hout, _⟩ := sliceCmds_cons h
     have hch := ih remLen (start1 + m.len) (count + 1) out' hrec hle
     subst hout
     rcases slicePolicy_ok hpol with ⟨_, hp, hs1⟩ | ⟨_, hp, hs1, hle1⟩
@@ -127,7 +135,7 @@ theorem sliceCmds_lengths :
     subst h; simp
   | cons m ms ih =>
     intro remLen start count out h
-    obtain ⟨policy, start1, out', hpol, _, _, hrec, hout⟩ := sliceCmds_cons h
+    obtain ⟨policy, start1, out', hpol, _, _, hrec, hout, _⟩ := sliceCmds_cons h
     obtain ⟨h1, h2, h3⟩ := ih remLen _ _ out' hrec
     subst hout
     rcases slicePolicy_ok hpol with ⟨h0, hp, _⟩ | ⟨_, hp, _, _⟩
@@ -135,6 +143,27 @@ theorem sliceCmds_lengths :
       simp [polLen, dataLen, h0, h1, h2, h3]
     · subst hp
       simp [polLen, dataLen, h1, h2, h3]
+
+/-- every command the loop returns has a parent whose max cut has a successor: the command's
+own max cut (`CommandExt::max_cut`) is representable -/
+theorem sliceCmds_parents :
+    ∀ (ms : List Meta) (remLen start count : Nat) (out : List CmdOut),
+      sliceCmds ms remLen start count = .ok out →
+      ∀ c ∈ out, parentHasSuccessor c.parent = true := by
+  intro ms
+  induction ms with
+  | nil =>
+    intro remLen start count out h
+    simp only [sliceCmds, Except.ok.injEq] at h
+    subst h; simp
+  | cons m ms ih =>
+    intro remLen start count out h
+    obtain ⟨policy, start1, out', _, _, _, hrec, hout, hpar⟩ := sliceCmds_cons h
+    subst hout
+    intro c hc
+    rcases List.mem_cons.mp hc with e | e
+    · subst e; exact hpar
+    · exact ih _ _ _ out' hrec c e
 
 /-- every range of a chain lies inside `[s, lim]` -/
 theorem chained_within : ∀ (rs : List (Nat × Nat)) (s lim : Nat), Chained s rs lim →
